@@ -1,6 +1,7 @@
 package pmc
 
 import (
+	"context"
 	"fmt"
 	"sort"
 	"strings"
@@ -60,7 +61,7 @@ func (a *Adv) soupDependent() bool {
 	if a.e.Cfg.Eager {
 		return true
 	}
-	for _, p := range []string{"XT", "VC", "NV", "NVW", "NVH", "NVN", "NVM"} {
+	for _, p := range []string{"XT", "VC", "VCT", "NV", "NVW", "NVH", "NVN", "NVM"} {
 		if a.on(p) {
 			return true
 		}
@@ -177,6 +178,21 @@ func (a *Adv) vote(b primitives.MemberId, h, v uint64, p *proofSrc, block interf
 	} else {
 		builder = f.CreateViewChangeMessageContentBuilder(primitives.BlockHeight(h), primitives.View(v), &preparedmessages.PreparedMessages{PreprepareMessage: p.ppm, PrepareMessages: p.preps})
 	}
+	return interfaces.NewViewChangeMessage(builder.Build(), block)
+}
+
+// voteOddType: like vote, for a proof whose proven view the adversary itself led: the PREPREPARE ref declares the
+// message type COMMIT and is signed (genuinely, by its leader) over exactly those bytes; the PREPARE part is the
+// genuine one. Nothing on the receive path constrains the type inside a proof, so correct nodes accept the vote;
+// whatever they build from it later (NEW_VIEW) must still be acceptable to their peers (C11).
+func (a *Adv) voteOddType(b primitives.MemberId, h, v uint64, p *proofSrc, block interfaces.Block) *interfaces.ViewChangeMessage {
+	f := a.fac[string(b)]
+	builder := f.CreateViewChangeMessageContentBuilder(primitives.BlockHeight(h), primitives.View(v), &preparedmessages.PreparedMessages{PreprepareMessage: p.ppm, PrepareMessages: p.preps})
+	pr := builder.SignedHeader.PreparedProof
+	pr.PreprepareBlockRef.MessageType = protocol.LEAN_HELIX_COMMIT
+	leader := primitives.MemberId(pr.PreprepareSender.MemberId)
+	pr.PreprepareSender.Signature = primitives.Signature((&kit.KeyManager{Me: leader}).SignConsensusMessage(context.Background(), primitives.BlockHeight(h), pr.PreprepareBlockRef.Build().Raw()))
+	builder.Sender.Signature = primitives.Signature((&kit.KeyManager{Me: b}).SignConsensusMessage(context.Background(), primitives.BlockHeight(h), builder.SignedHeader.Build().Raw()))
 	return interfaces.NewViewChangeMessage(builder.Build(), block)
 }
 
@@ -337,11 +353,11 @@ func (a *Adv) build(soup []Sent, t *LState) []int {
 		}
 	}
 	var proofs []proofSrc
-	if a.on("VC") || a.on("NV") || a.on("NVW") || a.on("NVH") || a.on("NVN") || a.on("NVM") {
+	if a.on("VC") || a.on("VCT") || a.on("NV") || a.on("NVW") || a.on("NVH") || a.on("NVN") || a.on("NVM") {
 		proofs = a.proofs(soup, h)
 	}
 	// ---- VC to the target as leader
-	if a.on("VC") || (a.on("OUT") && a.out != nil) {
+	if a.on("VC") || a.on("VCT") || (a.on("OUT") && a.out != nil) {
 		for v := uint64(1); v <= e.Cfg.MaxView; v++ {
 			if r.Leader(v) != me || (!e.Cfg.Eager && v < t.View) {
 				continue
@@ -349,6 +365,15 @@ func (a *Adv) build(soup []Sent, t *LState) []int {
 			vs := []primitives.MemberId{}
 			if a.on("VC") {
 				vs = append(vs, a.byz...)
+			}
+			if a.on("VCT") {
+				for _, b := range a.byz {
+					for k := range proofs {
+						if p := &proofs[k]; p.view < v && a.owns(primitives.MemberId(r.Leader(p.view))) {
+							add(a.voteOddType(b, h, v, p, a.blockFor(h, p.tag)), "VCT")
+						}
+					}
+				}
 			}
 			for _, b := range vs {
 				add(a.vote(b, h, v, nil, nil), "VC")
